@@ -1,1 +1,126 @@
-(* stub: to be written by group Questrade *)
+(* C20 - Statement FMV extraction returns every holding once; no page is
+   skipped.  Obligations of the property; proofs live in Proofs/FmvProps.v and
+   Proofs/PagesProps.v. *)
+From Coq Require Import List NArith ZArith QArith Qcanon Bool.
+From ACB Require Import Base.Outcome Base.QcExtra Model.QText Model.Fmv Model.Pages
+     Spec.FmvTable Proofs.FmvProps Proofs.PagesProps.
+Import ListNotations.
+Local Open Scope N_scope.
+
+(* ---- text layer ---- *)
+(* Every well-formed laid-out table (any number of securities, any number of
+   description lines with any content incl. digits, numbers at the end of the
+   last description line or on a line of their own, a single 100% holding,
+   any indentation, any lines before the header, any text after the total
+   row) is returned exactly as listed: each security once, with its
+   description lines joined by single spaces, its allocation, its market
+   value, and the table total. *)
+Theorem C20_table_roundtrip : forall t post,
+  well_formed t = true -> parse_page (render_table t ++ post) = Ok (content t).
+Proof. exact FmvProps.table_roundtrip. Qed.
+Check C20_table_roundtrip : forall t post,
+  well_formed t = true -> parse_page (render_table t ++ post) = Ok (content t).
+Print Assumptions C20_table_roundtrip.
+
+(* well_formed = layout_ok && unambiguous.  Outside [unambiguous] the property
+   fails: a single 100% holding whose numbers stand on their own line
+   ("100.0 50,000.00" has the shape of the total row) and whose description
+   ends in two number-like tokens ("... 5.25 2030") is cut short: the
+   extractor returns allocation 5.25 and market value 2030.  Known class
+   [ambiguous]; the witness is replayed on the implementation by the check. *)
+Theorem C20_ambiguous_total_refuted : exists t,
+  layout_ok t = true /\ ambiguous t = true /\ parse_page (render_table t) <> Ok (content t).
+Proof. exists FmvProps.ambiguous_witness. exact FmvProps.ambiguous_witness_fails. Qed.
+Check C20_ambiguous_total_refuted : exists t,
+  layout_ok t = true /\ ambiguous t = true /\ parse_page (render_table t) <> Ok (content t).
+Print Assumptions C20_ambiguous_total_refuted.
+
+Theorem C20_outside_ambiguous : forall t post,
+  layout_ok t = true -> ambiguous t = false -> parse_page (render_table t ++ post) = Ok (content t).
+Proof.
+  intros t post Hl Ha. apply FmvProps.table_roundtrip. unfold well_formed, ambiguous in *.
+  rewrite Hl in *. cbn [andb] in *. apply negb_false_iff in Ha. exact Ha.
+Qed.
+Check C20_outside_ambiguous : forall t post,
+  layout_ok t = true -> ambiguous t = false -> parse_page (render_table t ++ post) = Ok (content t).
+Print Assumptions C20_outside_ambiguous.
+
+(* The statement: month taken from the first page that carries it, table from
+   the first page carrying the marker, whatever surrounds them. *)
+Theorem C20_statement_roundtrip : forall before mp between t post after d,
+  Forall (fun p => has_marker p = false /\ month_date_of p = Ok None) before ->
+  has_marker mp = false -> month_date_of mp = Ok (Some d) ->
+  Forall (fun p => has_marker p = false) between ->
+  has_marker (render_table t ++ post) = true ->
+  well_formed t = true ->
+  parse_statement_text (before ++ mp :: between ++ (render_table t ++ post) :: after)
+  = Ok {| st_month := d; st_fmvs := fst (content t); st_total := snd (content t) |}.
+Proof. exact FmvProps.statement_roundtrip. Qed.
+Check C20_statement_roundtrip : forall before mp between t post after d,
+  Forall (fun p => has_marker p = false /\ month_date_of p = Ok None) before ->
+  has_marker mp = false -> month_date_of mp = Ok (Some d) ->
+  Forall (fun p => has_marker p = false) between ->
+  has_marker (render_table t ++ post) = true ->
+  well_formed t = true ->
+  parse_statement_text (before ++ mp :: between ++ (render_table t ++ post) :: after)
+  = Ok {| st_month := d; st_fmvs := fst (content t); st_total := snd (content t) |}.
+Print Assumptions C20_statement_roundtrip.
+
+(* ---- pages ---- *)
+Theorem C20_cover : forall n hints p,
+  1 <= p <= n -> In p (concat (safe_page_chunks n hints)).
+Proof. exact PagesProps.chunks_cover. Qed.
+Check C20_cover : forall n hints p,
+  1 <= p <= n -> In p (concat (safe_page_chunks n hints)).
+Print Assumptions C20_cover.
+
+Theorem C20_in_range : forall n hints p,
+  In p (concat (safe_page_chunks n hints)) -> 1 <= p <= n.
+Proof. exact PagesProps.chunks_in_range. Qed.
+Check C20_in_range : forall n hints p,
+  In p (concat (safe_page_chunks n hints)) -> 1 <= p <= n.
+Print Assumptions C20_in_range.
+
+(* For every page count, every hint list and every extractor that can read
+   the pages 1..n: the iterator (code after the fix: the cache only grows)
+   requests exactly the sanitised groups, yields exactly their pages in order
+   with the text of that page, and ends normally. *)
+Theorem C20_iter_yields_all : forall (T : Type) (prov : N -> option T) (txt : N -> T) n hints,
+  (forall p, 1 <= p <= n -> prov p = Some (txt p)) ->
+  run_iter T prov ResizeGrow [] (safe_page_chunks n hints)
+  = (map (fun p => (p, txt p)) (concat (safe_page_chunks n hints)),
+     safe_page_chunks n hints, IterDone).
+Proof. exact PagesProps.iter_yields_all. Qed.
+Check C20_iter_yields_all : forall (T : Type) (prov : N -> option T) (txt : N -> T) n hints,
+  (forall p, 1 <= p <= n -> prov p = Some (txt p)) ->
+  run_iter T prov ResizeGrow [] (safe_page_chunks n hints)
+  = (map (fun p => (p, txt p)) (concat (safe_page_chunks n hints)),
+     safe_page_chunks n hints, IterDone).
+Print Assumptions C20_iter_yields_all.
+
+(* The code before the fix (Vec::resize on every store): hint group [4,2] of
+   a 4-page document panics on the first page (index out of bounds). *)
+Theorem C20_descending_group_refuted :
+  run_iter N (ident_prov 4) ResizeAlways [] (safe_page_chunks 4 [[4; 2]])
+  = ([], [[4; 2]], IterPanic PSite.cache_index).
+Proof. exact PagesProps.descending_group_always_panics. Qed.
+Check C20_descending_group_refuted :
+  run_iter N (ident_prov 4) ResizeAlways [] (safe_page_chunks 4 [[4; 2]])
+  = ([], [[4; 2]], IterPanic PSite.cache_index).
+Print Assumptions C20_descending_group_refuted.
+
+(* ---- non-vacuity ---- *)
+(* the repository's own single-holding example (two description lines with
+   digits, numbers on their own line "100.0 99,999.99") is well-formed *)
+Example C20_table_nonvacuous :
+  well_formed single_holding_example = true /\
+  length (fst (content single_holding_example)) = 1%nat.
+Proof. split; vm_compute; reflexivity. Qed.
+
+(* the shipped hints on a 9-page statement: groups, all pages, in range *)
+Example C20_pages_nonvacuous :
+  safe_page_chunks 9 [[1; 7]; [6; 8]] = [[1; 7]; [6; 8]; [2; 3; 4; 5; 9]] /\
+  run_iter N (ident_prov 9) ResizeGrow [] (safe_page_chunks 9 [[1; 7]; [6; 8]])
+  = ([(1,1); (7,7); (6,6); (8,8); (2,2); (3,3); (4,4); (5,5); (9,9)],
+     [[1; 7]; [6; 8]; [2; 3; 4; 5; 9]], IterDone).
+Proof. split; vm_compute; reflexivity. Qed.
